@@ -2,8 +2,8 @@
    DESIGN App. A.1), from bytes to the token stream the parser sees.
 
    After the repair of F9 every scanner error event (invalid UTF-8, NUL,
-   unterminated literal or comment, bad escape, bad char literal, read fault)
-   makes the parse fail, and a parse can only succeed after reading the input to
+   unterminated literal or comment, bad char literal, read fault) except
+   "invalid char escape" makes the parse fail, and a parse can only succeed after reading the input to
    EOF; so the lexer is modelled as a total function on the whole input that
    yields [None] as soon as one error event occurs. *)
 From Mpath.Model Require Import Base.
@@ -113,14 +113,16 @@ Definition digit_val (c : Z) : Z :=
   else if (65 <=? c) && (c <=? 70) then c - 65 + 10
   else 16.
 
-(** scanDigits: exactly n digits of the base, else an error event *)
-Fixpoint scan_digits (n : nat) (base : Z) (cs : list (Z * str)) (acc : str) : option (str * list (Z * str)) :=
+(** scanDigits: up to n digits of the base are consumed; fewer than n is an
+    "invalid char escape" event, which mpath ignores (the characters stay in
+    the token as written) *)
+Fixpoint scan_digits (n : nat) (base : Z) (cs : list (Z * str)) (acc : str) : str * list (Z * str) :=
   match n with
-  | O => Some (acc, cs)
+  | O => (acc, cs)
   | S n' =>
     match cs with
-    | (c, b) :: cs' => if digit_val c <? base then scan_digits n' base cs' (acc ++ b) else None
-    | [] => None
+    | (c, b) :: cs' => if digit_val c <? base then scan_digits n' base cs' (acc ++ b) else (acc, cs)
+    | [] => (acc, cs)
     end
   end.
 
@@ -143,26 +145,14 @@ Fixpoint scan_string (fuel : nat) (quote : Z) (cs : list (Z * str)) (acc : str) 
           if zmem e [97; 98; 102; 110; 114; 116; 118; 92] || (e =? quote)
           then scan_string k quote cs'' (acc ++ b ++ eb) (S n)
           else if (48 <=? e) && (e <=? 55) then
-            match scan_digits 3 8 cs' (acc ++ b) with
-            | Some (acc', r) => scan_string k quote r acc' (S n)
-            | None => None
-            end
+            let (acc', r) := scan_digits 3 8 cs' (acc ++ b) in scan_string k quote r acc' (S n)
           else if e =? 120 then
-            match scan_digits 2 16 cs'' (acc ++ b ++ eb) with
-            | Some (acc', r) => scan_string k quote r acc' (S n)
-            | None => None
-            end
+            let (acc', r) := scan_digits 2 16 cs'' (acc ++ b ++ eb) in scan_string k quote r acc' (S n)
           else if e =? 117 then
-            match scan_digits 4 16 cs'' (acc ++ b ++ eb) with
-            | Some (acc', r) => scan_string k quote r acc' (S n)
-            | None => None
-            end
+            let (acc', r) := scan_digits 4 16 cs'' (acc ++ b ++ eb) in scan_string k quote r acc' (S n)
           else if e =? 85 then
-            match scan_digits 8 16 cs'' (acc ++ b ++ eb) with
-            | Some (acc', r) => scan_string k quote r acc' (S n)
-            | None => None
-            end
-          else None                                (* invalid char escape *)
+            let (acc', r) := scan_digits 8 16 cs'' (acc ++ b ++ eb) in scan_string k quote r acc' (S n)
+          else scan_string k quote cs' (acc ++ b) (S n)   (* unknown escape: ignored event, the character is scanned next *)
         end
       else scan_string k quote cs' (acc ++ b) (S n)
     end
